@@ -214,58 +214,86 @@ def _fill_work(arg):
             return errs, 'fill-refused:' + fr['exc'][0], 0
         errs.append(('fill-raised', str(fr['exc'])))
         return errs, r.outcome_class(), 0
-    fills = [c for c in fr['cmds'] if 'fill_form' in c]
+    fl = {C.form_name: C for C in available_forms[year]}
+    ydir = os.path.join(hv.REPO, 'habutax', 'forms', f'ty{year}')
+    fmap = {}
+    insts = {}
+    for sec in r.solution:
+        nm, _, ins = sec.partition(':')
+        fobj = fl[nm](instance=ins or None)
+        insts[sec] = fobj
+        for fld in fobj.fields():
+            fmap[fld.name()] = fld
+    by_template = {}
+    for sec, fobj in insts.items():
+        if fobj.pdf_file():
+            by_template.setdefault(os.path.abspath(fobj.pdf_file()), []).append(sec)
+
+    def expected_fdf(form):
+        exp = []
+        for pf in form.pdf_fields():
+            ln = pf.field_name if '.' in pf.field_name else f'{form.name()}.{pf.field_name}'
+            if ln in typed:
+                exp.append((pf.pdf_field_name, pf.value(_coerce(typed[ln], fmap[ln]), fmap[ln])))
+            else:
+                exp.append((pf.pdf_field_name, ''))
+        return exp
+    # attribute every fill_form invocation to a form instance of the solution: by template, then by content
+    nfields = 0
+    filled = []
+    out_to_inst = {}
+    for k, c in enumerate(fr['cmds']):
+        if 'fill_form' not in c:
+            continue
+        tpl = os.path.abspath(c[0])
+        outp = c[c.index('output') + 1]
+        if not tpl.startswith(ydir) or tpl not in by_template:
+            errs.append(('template', f'fill_form on {c[0]}, which is not the template of any form of this {year} solution'))
+            continue
+        try:
+            got = read_fdf(fr['fdfs'][k].decode('utf-8'))
+        except (FDFError, KeyError, UnicodeDecodeError) as e:
+            errs.append(('fdf-unparseable', f'{os.path.basename(tpl)}: {e}'))
+            continue
+        match = None
+        cands = by_template[tpl]
+        for sec in cands:
+            if got == expected_fdf(insts[sec]) and sec not in filled:
+                match = sec
+                break
+        if match is None:
+            for sec in cands:
+                if got == expected_fdf(insts[sec]):
+                    match = sec
+        if match is None:
+            exp = expected_fdf(insts[cands[0]])
+            bad = [(a, b) for a, b in zip(got, exp) if a != b][:3]
+            errs.append(('fdf-content', f'{cands}: first differing (decoded, mapped): {bad} (counts {len(got)}/{len(exp)})'))
+            match = cands[0]
+        nfields += len(got)
+        filled.append(match)
+        out_to_inst.setdefault(outp, []).append(match)
     cats = [c for c in fr['cmds'] if 'cat' in c]
-    filled = [os.path.basename(c[c.index('output') + 1])[:-4] for c in fills]
     if sorted(filled) != sorted(w[2] for w in want):
         errs.append(('wrong-forms-filed', f'filled {sorted(filled)}, the solution requires {sorted(w[2] for w in want)}'))
     if len(cats) != 1:
         errs.append(('cat-count', f'{len(cats)} cat invocations'))
     else:
         c = cats[0]
-        order = [os.path.basename(x)[:-4] for x in c[:c.index('cat')]]
+        paths = c[:c.index('cat')]
         keyof = {w[2]: (w[0], w[1]) for w in want}
-        if sorted(order) != sorted(filled):
-            errs.append(('cat-set', f'cat got {order}, filled {filled}'))
-        elif [keyof.get(o) for o in order] != sorted(keyof.get(o) for o in order):
+        order = []
+        for pth in paths:
+            lst = out_to_inst.get(pth, [])
+            order.append(lst[-1] if lst else '?')    # the file holds what was written to it last
+        if len(set(paths)) != len(paths):
+            errs.append(('cat-duplicate', f'the same filled file is assembled twice: {[os.path.basename(x) for x in paths]}'))
+        if sorted(order) != sorted(w[2] for w in want):
+            errs.append(('cat-set', f'assembled {order}, the solution requires {sorted(w[2] for w in want)}'))
+        elif [keyof.get(o, (9, 9)) for o in order] != sorted(keyof.get(o, (9, 9)) for o in order):
             errs.append(('cat-order', f'assembled in order {order}; by jurisdiction and attachment sequence it should be {[w[2] for w in want]}'))
         if c[c.index('output') + 1] != outpdf:
             errs.append(('cat-output', f'output {c[c.index("output") + 1]}'))
-    ydir = os.path.join(hv.REPO, 'habutax', 'forms', f'ty{year}')
-    nfields = 0
-    fl = {C.form_name: C for C in available_forms[year]}
-    for k, c in enumerate(fr['cmds']):
-        if 'fill_form' not in c:
-            continue
-        inst_name = os.path.basename(c[c.index('output') + 1])[:-4]
-        name, _, inst = inst_name.partition(':')
-        form = fl[name](instance=inst or None)
-        if os.path.abspath(c[0]) != os.path.abspath(form.pdf_file()) or not os.path.abspath(c[0]).startswith(ydir):
-            errs.append(('template', f'{inst_name} filled into {c[0]}'))
-        try:
-            got = read_fdf(fr['fdfs'][k].decode('utf-8'))
-        except (FDFError, KeyError, UnicodeDecodeError) as e:
-            errs.append(('fdf-unparseable', f'{inst_name}: {e}'))
-            continue
-        exp = []
-        fmap = {}
-        for sec in r.solution:
-            nm, _, ins = sec.partition(':')
-            for fld in fl[nm](instance=ins or None).fields():
-                fmap[fld.name()] = fld
-        for pf in form.pdf_fields():
-            ln = pf.field_name if '.' in pf.field_name else f'{form.name()}.{pf.field_name}'
-            if ln in typed:
-                v = typed[ln]
-                # typed values of enumerations come from the solver's own form objects; render through the
-                # filler's equivalent field object
-                exp.append((pf.pdf_field_name, pf.value(_coerce(v, fmap[ln]), fmap[ln])))
-            else:
-                exp.append((pf.pdf_field_name, ''))
-        nfields += len(exp)
-        if got != exp:
-            bad = [(a, b) for a, b in zip(got, exp) if a != b][:3]
-            errs.append(('fdf-content', f'{inst_name}: first differing (decoded, mapped): {bad} (counts {len(got)}/{len(exp)})'))
     return errs, r.outcome_class(), nfields
 
 
